@@ -688,12 +688,31 @@ func componentCaseKind(c *Case, force string) (*WF, string) {
 	case "paramcomb":
 		k := 1 + t.Choose(simrt.StGen, 4, 0)
 		cmb := Node{Name: "pcomb", Kind: KParamCombinator}
+		// (all ports fed by ONE ParamSource: its out-port fans out to several ports)
+		sharedP := k >= 2 && t.Choose(simrt.StGen, 3, 0) == 1
+		sharedNode := -1
 		for i := 0; i < k; i++ {
 			n := itemCounts[t.Choose(simrt.StGen, 5, 0)]
 			if k == 4 && n > 3 {
 				n = 3
 			}
 			ps := ParamSpec{Name: ports[i]}
+			if sharedP {
+				if sharedNode < 0 {
+					if n > buf {
+						n = buf
+					}
+					var sv []string
+					for x := 0; x < n; x++ {
+						sv = append(sv, fmt.Sprintf("s%d", x))
+					}
+					sharedNode = addNode(w, Node{Name: "psS", Kind: KParamSrc, Vals: sv})
+					c.Probe("paramcombinator-ports-share-one-source")
+				}
+				ps.From = &Edge{sharedNode, "out"}
+				cmb.Params = append(cmb.Params, ps)
+				continue
+			}
 			var vals []string
 			for x := 0; x < n; x++ {
 				vals = append(vals, fmt.Sprintf("%s%d", ports[i], x))
@@ -752,12 +771,20 @@ func componentCaseKind(c *Case, force string) (*WF, string) {
 	case "splitter":
 		nf := 1 + t.Choose(simrt.StGen, 2, 0)
 		src := Node{Name: "src0", Kind: KFileSrc}
+		big := t.Choose(simrt.StGen, 6, 0) == 1
 		for i := 0; i < nf; i++ {
 			lines := t.Choose(simrt.StGen, 8, 0)
+			if big {
+				// (more than a scanner's initial 4 KiB buffer, many lines)
+				lines = 150 + 50*t.Choose(simrt.StGen, 4, 0)
+			}
 			p := fmt.Sprintf("lines%d.txt", i)
 			var b strings.Builder
 			for l := 0; l < lines; l++ {
 				fmt.Fprintf(&b, "file %d line %d\n", i, l)
+				if big {
+					b.WriteString(strings.Repeat("-", l%37) + "\n")
+				}
 			}
 			src.Files = append(src.Files, p)
 			w.Sources[p] = b.String()
@@ -769,7 +796,11 @@ func componentCaseKind(c *Case, force string) (*WF, string) {
 			w.Sources[f] += strings.Repeat("L", 70000) + "\nlast line\n"
 		}
 		s := addNode(w, src)
-		sp := addNode(w, Node{Name: "split", Kind: KSplitter, SplitLines: 1 + t.Choose(simrt.StGen, 3, 0), Rec: true,
+		splitLines := 1 + t.Choose(simrt.StGen, 3, 0)
+		if big {
+			splitLines = 40 + 30*t.Choose(simrt.StGen, 3, 0)
+		}
+		sp := addNode(w, Node{Name: "split", Kind: KSplitter, SplitLines: splitLines, Rec: true,
 			Ins: []InSpec{{Name: "file", From: []Edge{{s, "out"}}}}, Outs: []OutSpec{{Name: "split_file"}}})
 		oneToOne(w, "use", Edge{sp, "split_file"})
 	case "concat":
@@ -854,6 +885,19 @@ func componentCaseKind(c *Case, force string) (*WF, string) {
 		g.Outs = []OutSpec{{Name: "out"}}
 		gi := addNode(w, g)
 		oneToOne(w, "use", Edge{gi, "out"})
+		if len(g.Files) > 0 && t.Choose(simrt.StGen, 4, 0) == 1 {
+			// the same program deletes some of the matched files and runs the workflow
+			// again: the second run globs the directory as it is then
+			var del []string
+			for _, f := range g.Files {
+				if t.Choose(simrt.StGen, 2, 0) == 1 {
+					del = append(del, Abs(f))
+				}
+			}
+			if len(del) > 0 {
+				w.Rounds = [][]string{del}
+			}
+		}
 	case "fileparams", "cmdparams":
 		n := itemCounts[t.Choose(simrt.StGen, 6, 0)]
 		var vals []string
@@ -1125,6 +1169,27 @@ func init() {
 				// matches are emitted pattern by pattern, each pattern's matches in the
 				// (sorted) order filepath.Glob yields them
 				got := inc.RT.Recorded[recKey("glob", "out", "use", "a")]
+				if len(w.Rounds) > 0 {
+					want := append([]string{}, w.NodeByName("glob").Files...)
+					if len(inc.RT.PreRound) > 0 {
+						// the directory as the second round finds it (results of the first
+						// round included, the deleted files gone)
+						var present []string
+						for p, e := range WorkFiles(inc.RT.PreRound[0]) {
+							if e.Kind == simrt.KFile {
+								present = append(present, strings.TrimPrefix(p, "/work/"))
+							}
+						}
+						for _, pat := range w.NodeByName("glob").Globs {
+							want = append(want, globExpected(pat, present)...)
+						}
+					}
+					c.Probe("globber-second-round-after-deletions")
+					if strings.Join(got, " ") != strings.Join(want, " ") {
+						return Viol("globber-stale", kind, "FileGlobber in two rounds of one program (files %v deleted in between) emitted %v; the directory as it was each time gives %v", w.Rounds[0], got, want)
+					}
+					return OK()
+				}
 				if want := w.NodeByName("glob").Files; strings.Join(got, " ") != strings.Join(want, " ") {
 					return Viol("globber-order", kind, "FileGlobber with patterns %v emitted %v; pattern by pattern the matches are %v", w.NodeByName("glob").Globs, got, want)
 				}
